@@ -229,3 +229,63 @@ for _c in ("MapFuture", "FlatMapFuture", "ThrottleFuture"):
                       _setup_nested(_c), _post_nested, cfg=_cfg, self_cls=_c))
 REPLAYS += [("C04", "nested in own cancel()", "replay/c04_sibling_cancel_callbacks.py"), ("C02", "nested in own cancel()", "replay/c04_sibling_cancel_callbacks.py"),
             ("C04", "requires _me_invoke_callbacks", "replay/c04_sibling_cancel_callbacks.py"), ("C02", "requires _me_invoke_callbacks", "replay/c04_sibling_cancel_callbacks.py")]
+
+
+# ---- constructors: default functions, no flattening yet, hooked into the delegate exactly once ------------------------------------
+from pyvc.vals import Func as _Func
+from .base import RecordCall as _RecordCall, INST as _INST
+
+
+def _cfg_ctor():
+    cfg = _cfg()
+    cfg.concurrent = False
+    cfg.contracts["more_executors._impl.map.MapFuture._delegate_resolved"] = _RecordCall()
+    return cfg
+
+
+def _setup_ctor(cls_name, variant):
+    def setup(engine, st):
+        oid = st.alloc(cls_name)
+        st.assume(cls_of(z3.IntVal(oid)) == engine.tag(cls_name))
+        me = Z(ref(oid), _INST(cls_name))
+        d = sym_val(engine, st, "future", "delegate")
+        args = [me, d]
+        ctx = {"me": me, "sid": z3.IntVal(oid), "d": d, "cls": cls_name, "variant": variant}
+        if variant == "functions given":
+            fn = sym_val(engine, st, "callable", "map_fn")
+            ef = sym_val(engine, st, "callable", "error_fn")
+            st.assume(z3.And(Val.is_none(st.get("$code", Val.id(fn.t))), Val.is_none(st.get("$code", Val.id(ef.t)))))
+            args += [fn, ef]
+            ctx.update(fn=fn, ef=ef)
+        return args, {}, ctx
+    return setup
+
+
+def _post_ctor(engine, st, ctx, out):
+    sid = ctx["sid"]
+    regs = [e for e in st.trace if e.kind == "register-cb"]
+    imm = [e for e in st.trace if e.kind == "repo-call" and e.meth.endswith("._delegate_resolved")]
+    cl = [("the constructor does not raise", "EX", not isinstance(out, Raise), ["C13", "C18"])]
+    if isinstance(out, Raise):
+        return cl
+    if ctx["variant"] == "functions given":
+        cl.append(("the future keeps exactly the caller's fn and error_fn", "PC",
+                   z3.And(st.get("_map_fn", sid) == ctx["fn"].t, st.get("_error_fn", sid) == ctx["ef"].t), ["C13", "C01"]))
+    else:
+        default = "map.identity" if ctx["cls"] != "FlatMapFuture" else "futures.base.f_return"
+        fid = engine.repo.func(default).fid
+        cl.append(("omitted fn defaults to %s (identity for map; wrap-in-a-future for flat_map, so that a plain value passes through); no error_fn" % default, "PC",
+                   z3.And(st.get("_map_fn", sid) == ref(fid), Val.is_none(st.get("_error_fn", sid))), ["C13"]))
+    if ctx["cls"] == "FlatMapFuture":
+        cl.append(("a new flat-map future is in stage 1 (not flattened)", "PC", st.get("_FlatMapFuture__flattened", sid) == Val.boolv(z3.BoolVal(False)), ["C13"]))
+    cl.append(("the future hooks into its delegate exactly once (callback registered, or run at once for a finished delegate) and remembers it", "PC",
+               z3.And(z3.BoolVal(len(regs) == 1 and len(imm) == (1 if regs and regs[0].extra.get("immediate") else 0)), regs[0].recv == Val.id(ctx["d"].t) if regs else z3.BoolVal(False),
+                      imm[0].args[0] == ctx["me"].t if imm else z3.BoolVal(True),
+                      z3.Or(st.get("_delegate", sid) == ctx["d"].t, z3.BoolVal(bool(imm)))), ["C13", "C03", "C01"]))
+    return cl
+
+
+for _c in ("MapFuture", "FlatMapFuture"):
+    for _v in ("functions given", "functions omitted"):
+        UNITS.append(Unit("%s.__init__[%s]" % (_c, _v), ("map.MapFuture.__init__" if _c == "MapFuture" else "flat_map.FlatMapFuture.__init__"),
+                          ["C13", "C01", "C03", "C18"], _setup_ctor(_c, _v), _post_ctor, cfg=_cfg_ctor, self_cls=_c))
